@@ -61,6 +61,40 @@ Fixpoint minl (l : list Z) : Z :=
   end.
 Definition gap (l : list Z) : Z := maxl l - minl l.
 
+(* ---- positions of extreme elements ---- *)
+
+(* `Iterator::min_by` is `reduce(|x, y| match cmp(x, y) { Greater => y, _ => x })`;
+   `partial_cmp x y` is Less iff x < y, otherwise Greater: the accumulator is
+   kept only when it is strictly smaller. *)
+Fixpoint argmin_last_aux (bi : nat) (bv : Z) (i : nat) (l : list Z) : nat :=
+  match l with
+  | [] => bi
+  | y :: t => if bv <? y then argmin_last_aux bi bv (S i) t else argmin_last_aux i y (S i) t
+  end.
+Definition argmin_last (l : list Z) : option nat :=
+  match l with
+  | [] => None
+  | x :: t => Some (argmin_last_aux 0 x 1 t)
+  end.
+
+(* position of the FIRST minimum *)
+Fixpoint argmin_first_aux (bi : nat) (bv : Z) (i : nat) (l : list Z) : nat :=
+  match l with
+  | [] => bi
+  | y :: t => if y <? bv then argmin_first_aux i y (S i) t else argmin_first_aux bi bv (S i) t
+  end.
+Definition argmin_first (l : list Z) : nat :=
+  match l with
+  | [] => O
+  | x :: t => argmin_first_aux 0 x 1 t
+  end.
+(* position of the LAST maximum *)
+Fixpoint argmax_last_aux (bi : nat) (bv : Z) (i : nat) (l : list Z) : nat :=
+  match l with
+  | [] => bi
+  | y :: t => if y <? bv then argmax_last_aux bi bv (S i) t else argmax_last_aux i y (S i) t
+  end.
+
 (* largest part id of a partition array (`part_ids.par_iter().max().unwrap_or(&0)`) *)
 Definition maxN (p : list N) : N := fold_right N.max 0%N p.
 
